@@ -10,7 +10,7 @@ PROPS = ["MagpyVerif.Props.C19"]
 def run(ctx, model_ok):
     corr = None
     if ctx.driver_ok:
-        corr = disp_family.run_stream(ctx, ctx.scale(200, 5000))
+        corr = disp_family.run_stream(ctx, ctx.scale(400, 8000))
         ctx.cov["correspondence"] = corr
     budget = 4 if len(ctx.broken) else 1
     fails, ost = oracle.sweep(ctx, ctx.scale(25, 800) * budget)
@@ -29,10 +29,17 @@ def run(ctx, model_ok):
         ctx.cov["rule"] += ("; disp stream: get_rot_pos_from_path on integer paths of length 1-8 with show_path None/True/False/int (0, negative)/"
                             "list (out-of-range, negative, duplicate entries)/other, make_Cuboid (integer dimension, position, 4 backends), make_Tetrahedron "
                             "(integer vertices, both chiralities), make_Prism / make_Pyramid index arrays (base 0-50) against Model/Display.lean, exact; "
-                            "distinct = distinct (kind, canonical result) pairs")
-    ctx.cov["not_shown"] = ["local model generators other than make_Cuboid / make_Tetrahedron and the index arrays of make_Prism / make_Pyramid (vertex coordinates of Prism, Pyramid, "
-                            "Ellipsoid, CylinderSegment, Arrow use sin/cos), trace grouping/merging, plotly/matplotlib/pyvista glue: display oracle only "
-                            "(plotly backend; matplotlib/pyvista not exercised)",
+                            "vertex coordinates of make_Prism (N 1-60), make_Pyramid, make_CylinderSegment (r1 = 0, zero / full-360 / reversed / "
+                            "negative / beyond-360 angle ranges), make_Ellipsoid (N 0-24, ValueError for N <= 3), make_Circle and make_Polyline line traces "
+                            "against Model/DisplayTrig.lean at Float: lengths and order exact, values relative 1e-12 (observed bit-identical); "
+                            "distinct = distinct (kind, canonical result) pairs (input lines for the coordinate rows)")
+    ctx.cov["not_shown"] = ["index arrays of make_Ellipsoid / make_CylinderSegment (their vertex coordinates are modelled and proved on the surface, the triangulation "
+                            "between them is not), make_Arrow, make_Sensor, arrow traces of currents (draw_arrow_on_circle / draw_arrow_from_vertices), "
+                            "trace grouping/merging, plotly/matplotlib/pyvista glue: "
+                            "display oracle only (plotly backend; matplotlib/pyvista not exercised)",
+                            "polygonal approximation: theorems say the vertices lie ON the cylinder / ellipsoid / circle; the distance of the facets between "
+                            "vertices from the true surface is not bounded by a theorem; IEEE rounding of sin/cos (first and last circle point differ by "
+                            "sin(fl(2pi))*d/2 ~ 1.2e-16 d in double, equal in exact arithmetic)",
                             "frames: 'the last path row is always displayed' and 'no row is drawn twice' hold only for the show_path classes named in "
                             "frames_contains_last_partial / frames_rows_strictly_increasing_partial (witness theorems show the exclusions are necessary)",
                             "CylinderSegment, Tetrahedron, TriangularMesh, Triangle, Dipole, Sensor graphics are not mapped back by the oracle"]
